@@ -17,7 +17,13 @@ RULE = ("random small datasets x methods (neighbor K=1 default/grouped provenanc
         "bit-identical (compared as bytes) and montecarlo must draw identical permutations; (d) neighbor and bruteforce must not change when the seed changes; "
         "(e) montecarlo with different seeds but identical (injected) permutations must return identical scores; (f) around EVERY fit and score call (targets and "
         "histories, in-process and in the subprocesses) np.geterr(), np.geterrcall(), the content of warnings.filters and os.environ are snapshotted and must be unchanged "
-        "(numpy's global generator state is not part of the snapshot: the library seeds it on purpose). Non-trivial = the score vector is not constant; "
+        "(numpy's global generator state is not part of the snapshot: the library seeds it on purpose); (g) in about two thirds of the cases the fresh importance objects "
+        "of (a), (b), (d), (e) - and about half of the fresh objects of the histories that run in between, in-process and in the subprocesses, montecarlo ones with and "
+        "without truncation - are handed the SAME utility OBJECT (fresh importance objects, one utility: its state must not carry anything from one scoring to the "
+        "next), and for accuracy utilities (bare and JointUtility, every model above) the values montecarlo asks the utility for once per score call - null_score, "
+        "mean_score with the default arguments, mean_score with an explicit maxiter/seed - are compared as exact bit patterns between a fresh utility object, the same "
+        "object asked again after the global generators were re-seeded, another fresh object and the object the scorings shared: equal arguments (same seed) => "
+        "identical bits. Non-trivial = the score vector is not constant; "
         "distinct = distinct (dataset, method, utility, seed).")
 
 
@@ -31,8 +37,9 @@ def sub(ctx, case, hashseed):
     return {"error": (r.stderr or r.stdout)[-400:]}
 
 
-def rand_history(rng, p_empty=0.15):
-    """0-3 other scorings (small, valid, cheap) that run in the same process before the target case"""
+def rand_history(rng, p_empty=0.15, target=None):
+    """0-3 other scorings (small, valid, cheap) that run in the same process before the target case; when the target case shares its utility object
+    (`share_key`), about half of them are fresh importance objects handed that SAME utility object (other data, other method, other parameters)"""
     if rng.random() < p_empty:
         return []
     out = []
@@ -50,8 +57,41 @@ def rand_history(rng, p_empty=0.15):
         else:
             h.update(method=kind, model=rng.choice(["knn", "logreg", "gnb", "rtree"]), utility="accuracy",
                      kw=({"seed": rng.randrange(100)} if kind == "bruteforce" else {"mc_iterations": 2, "mc_truncation_steps": 0, "seed": rng.randrange(100)}))
+        if target is not None and target.get("share_key") is not None and rng.random() < 0.5:
+            # a fresh importance object that is handed the target's utility OBJECT (so it has the target's model / utility kind); ROC-AUC is scored by
+            # the neighbor method only; a montecarlo one may truncate (any montecarlo run asks the utility for its mean score)
+            h.update(model=target["model"], utility=target["utility"], joint=target["joint"], share_key=target["share_key"])
+            if target["utility"] == "rocauc" and h["method"] != "neighbor":
+                h.update(method="neighbor", kw={})
+            if h["method"] == "montecarlo":
+                h["kw"]["mc_truncation_steps"] = rng.choice([0, 1, 5])
         out.append(h)
     return out
+
+
+def utility_values(util, case, seed2):
+    """what the utility answers to the questions 'montecarlo' asks it once per score call, as exact bit patterns: null_score, mean_score with the default
+    arguments (maxiter 100, seed 7: the call montecarlo makes) and mean_score with an explicit maxiter / seed. An exception is part of the answer."""
+    import warnings
+    X, y, Xv, yv = np.array(case["X"], dtype=float), np.array(case["y"]), np.array(case["Xv"], dtype=float), np.array(case["yv"])
+    out = {}
+    for name, f in (("null_score", lambda: util.null_score(X, y, Xv, yv)), ("mean_score", lambda: util.mean_score(X, y, Xv, yv)),
+                    ("mean_score(maxiter=9,seed=%d)" % seed2, lambda: util.mean_score(X, y, Xv, yv, maxiter=9, seed=seed2))):
+        try:
+            with warnings.catch_warnings():
+                warnings.simplefilter("ignore")
+                v = float(f())
+            out[name] = "%s = %r" % (v.hex(), v)
+        except Exception as e:  # noqa
+            out[name] = "raised " + exc_name(e)
+    return out
+
+
+def scramble_globals(k):
+    import random
+    np.random.seed(k)
+    random.seed(k)
+    np.random.rand(k % 7 + 1)
 
 
 def state_changes(ctx, changes, where):
@@ -116,7 +156,11 @@ def run(ctx):
             case["kw"] = {"mc_iterations": rng.randint(2, 6), "mc_truncation_steps": rng.choice([0, 1, 2]), "mc_tolerance": rng.choice([0.1, 0.5]), "seed": seed}
         if method == "bruteforce":
             case["kw"] = {"seed": seed}
-        hist = rand_history(rng)
+        if rng.random() < 0.65:
+            # the two fresh importance objects below - and about half of the fresh objects of the history that runs in between (here and in the
+            # subprocesses) - are handed the SAME utility object; (d)/(e) reuse it too
+            case["share_key"] = "case%d" % it
+        hist = rand_history(rng, target=case)
         ran_before = list(worker.LOG)          # what this worker process scored before the first run of this case
         try:
             a, pa = worker.build_and_score(I, dict(case, scramble=None))
@@ -129,6 +173,23 @@ def run(ctx):
         vec = np.frombuffer(bytes.fromhex(a), dtype=float)
         ctx.case(case, nontrivial=len(set(np.round(vec[np.isfinite(vec)], 9).tolist())) > 1, sample=dict(case, scores=vec.tolist()), method=method, model=case["model"], joint=case["joint"], utility=case["utility"])
         ctx.dist["history_len=%d" % len(hist)] += 1
+        ctx.dist["utility_object_shared=%s" % ("share_key" in case)] += 1
+        ctx.dist["history_items_on_shared_utility=%d" % sum(1 for hh in hist if hh.get("share_key") is not None)] += 1
+        # (g) the utility's own answers: equal arguments (same seed) => the same bits, whichever object is asked and whatever it was asked before
+        if m >= 2 and case["utility"] == "accuracy":
+            seed2 = rng.randrange(1000)
+            u1 = worker.make_utility(I, case)
+            asked = [("fresh utility object, first call", utility_values(u1, case, seed2))]
+            scramble_globals(rng.randrange(1, 10 ** 6))
+            asked.append(("the same utility object, same calls repeated after the global generators were re-seeded", utility_values(u1, case, seed2)))
+            asked.append(("another fresh utility object", utility_values(worker.make_utility(I, case), case, seed2)))
+            if "share_key" in case:
+                asked.append(("the utility object the scorings above shared", utility_values(worker.SHARED[case["share_key"]], case, seed2)))
+            ctx.dist["utility_values_compared"] += 1
+            if any(v != asked[0][1] for _, v in asked[1:]):
+                ctx.mismatch("utility.null_score / mean_score return different values for equal arguments (same data, same maxiter, same seed) - the values the "
+                             "truncation of montecarlo, and so its reproducibility from the seed, rests on", case, impl=asked,
+                             spec="bit-identical values from every call with equal arguments")
         if a != b or pa != pb:
             ctx.mismatch("scores/permutations of a fresh object changed after the global random generators were re-seeded and other scorings (history) ran in the same process",
                          dict(case, history=hist), impl=dict(first=vec.tolist(), second=np.frombuffer(bytes.fromhex(b), dtype=float).tolist(), perms=[pa, pb]))
@@ -136,7 +197,7 @@ def run(ctx):
         if it % 2 == 0 or not q or case["model"] == "gnb":
             for hs in ([0, 1] if q else [0, 1, rng.randrange(2, 10 ** 6)]):
                 # PYTHONHASHSEED=0: nothing ran before in that process; otherwise another history of other scorings runs there first
-                hist2 = [] if hs == 0 else rand_history(rng, p_empty=0.0 if hs == 1 else 0.5)
+                hist2 = [] if hs == 0 else rand_history(rng, p_empty=0.0 if hs == 1 else 0.5, target=case)
                 r = sub(ctx, dict(case, scramble=rng.randrange(1, 10 ** 6), history=hist2), hs)
                 if "error" in r:
                     ctx.mismatch("subprocess run failed", dict(case, history=hist2), impl=r["error"])
